@@ -322,6 +322,16 @@ func buildSCION(v scionVariant, srcPort, dstPort uint16, payload []byte) (d dgra
 			d.wire = d.wire[:len(d.wire)-v.truncate]
 		}
 	}
+	finishSCION(&d, v)
+	return
+}
+
+// finishSCION derives, from the bytes of d.wire, the facts the model needs (with the client's own
+// parser configuration) and the harness's own verdicts for the oracles. v: the variant the packet
+// was built from (only its timestamp-option expectations are read).
+func finishSCION(dp *dgram, v scionVariant) {
+	d := *dp
+	defer func() { *dp = d }()
 	// facts, by the client's parser configuration
 	p := parseSCION(d.wire)
 	layers := ""
